@@ -162,7 +162,7 @@ class StmtMixin:
                 return [('ok', st, NONE_SV)]
             self.publish(st, v)
             st.arr['at:' + attr] = z3.Store(st.attr_arr(attr), o.v, self.box(st, v))
-            st.events.append(('attr-store', str(o.v), attr))
+            st.events.append(('attr-store', attr))
             st.ghost.setdefault('attr_stores', []).append((o, attr))
             return [('ok', st, NONE_SV)]
         if o.k == 'class':
@@ -668,7 +668,7 @@ class StmtMixin:
                                     'func_node': self.cur_func_node, 'func_name': self.cur_func_name}
         vals = []
         for vname, tag in lc['vars']:
-            v = self.lookup(s, vname, module)
+            v = self.lookup(s, vname, module) if self._visible(s, vname) else sv_ref(const('py_UNBOUND'))
             self.publish(s, v)
             vals.append(v)
         terms = [self.box(s, v) for v in vals] + self.its_terms(s, its)
@@ -700,7 +700,6 @@ class StmtMixin:
                 exc = F('exc', R)
                 kt = Z.klass(exc)
                 s2.add(Z.subclass(kt, self.cls_const('BaseException')), exc != Z.NONE)
-                self.class_term_facts(s2, kt)
                 outs.append(Out('raise', s2, sv_ref(exc)))
         return outs
 
